@@ -1,11 +1,20 @@
 import Driver.PumpDrv
+import Driver.Reader
 import SaphyrVerif.Model.IoCell
+import SaphyrVerif.Model.RawGate
 /-!
 Driver for the `iofault` area (C10).
 
   iofault single <fires> <budget…> <a> <b> <c> <items…>   → `ok` | `err <kind>`
   iofault iter   <fires> <budget…> <a> <b> <c> <items…>   → items joined by `,` then ` end=<0|1>`
   iofault writer <own 0|1> <wsched> <chunks>               → `<ok|io k|format|own> <written hex>`
+  iofault gate   <cap|-> <base 0|1|-> <items>              → `<eof|io k> <ok|err|?>`
+  iofault gatepull <cap|-> <items>                         → `pulled=<n>`
+
+`gate`: the raw-byte gate (`Model/RawGate.lean`) over the caller's reader `items` (`-` | `d<hex>`/`f<kind>` joined by
+`,`, as in the `reader` area), drained by a consumer that reads 8 KiB buffers to the first end of input or hard error:
+how it ended and the outcome class of the entry point (`gate`), the bytes taken from the reader (`gatepull`) — `err` after any fault,
+otherwise `base` (the class of `from_str` on the decoded text: `0` = ok, `1` = err, `-` = unknown).
 
 `fires` = `-` or `n:k` joined by `,`; budget as in the `pump` area (`-` or `<perdoc> <11 limits>`);
 `wsched` = `-` or `a<n>`/`f<k>` joined by `,`; `chunks` = `-` or hex strings joined by `,`.
@@ -68,6 +77,12 @@ def withSrc (rest : List String) (k : Src → String) : String :=
     | _, _ => "bad-op"
   | _ => "bad-op"
 
+/-- the gate over the caller's reader `sched`, drained by a consumer that reads 8 KiB buffers to the first end of input
+or hard error (`Gate.drain`; `raw_gate_drained` in Props/C10.lean states what it returns) -/
+def drainGate (cap : String) (sched : Sched) : List Nat × Option IoKind × Gate :=
+  let limit : Option Nat := if cap == "-" then none else cap.toNat?
+  Gate.drain 8192 ((flat sched).length + sched.length + 2) { inner := sched, limit := limit }
+
 def handle : List String → String
   | "single" :: rest =>
     withSrc rest fun s =>
@@ -91,6 +106,22 @@ def handle : List String → String
        | .format => "format"
        | .own => "own") ++ " " ++ bytesTok w.written
     | _, _ => "bad-op"
+  | ["gate", cap, base, items] =>
+    match Driver.Reader.parseItems items with
+    | some sched =>
+      let (_, e, _) := drainGate cap sched
+      let endTok := match e with
+        | none => "eof"
+        | some k => s!"io{k}"
+      let cls := match e with
+        | some _ => "err"
+        | none => if base == "0" then "ok" else if base == "1" then "err" else "?"
+      s!"{endTok} {cls}"
+    | none => "bad-op"
+  | ["gatepull", cap, items] =>
+    match Driver.Reader.parseItems items with
+    | some sched => s!"pulled={(drainGate cap sched).2.2.taken}"
+    | none => "bad-op"
   | _ => "bad-op"
 
 end Driver.IoFault
